@@ -55,24 +55,27 @@ def run(ctx):
         starts[rep] = ["choices", "choices_no_progress", "choices_a_progress", "choices_b_progress", "level1", "negative", "negative_match", "mixed", "mixed_progress"]
     stages = c01.front(gs)
     acc = [(g, s) for g, s in zip(gs, stages) if "error" not in s]
-    jobs = [(gi, st) for gi, (g, s) in enumerate(acc) for st in starts[g]]
+    jobs = [(gi, st, 0) for gi, (g, s) in enumerate(acc) for st in starts[g]]
+    # the same report is owed when detailed error tracking (pest::set_error_detail) is on: reporting.pest and the reporting shapes again
+    shapes = set(reporting_shapes())
+    jobs += [(gi, st, 1) for gi, (g, s) in enumerate(acc) if g in shapes or (REPORTING and gi == 0) for st in starts[g]]
     t0 = time.time()
-    res = par.pmap(vmsym.explore_grammar, [(P, acc[gi][1]["optimized"], acc[gi][1]["optimized"], st, N, {"max_steps": 200_000, "via_state": True, "attempts": True}) for gi, st in jobs], NCPU)
+    res = par.pmap(vmsym.explore_grammar, [(P, acc[gi][1]["optimized"], acc[gi][1]["optimized"], st, N, {"max_steps": 200_000, "via_state": True, "attempts": True, "error_detail": bool(det)}) for gi, st, det in jobs], NCPU)
     errs = [(acc[j[0]][0], r[1]) for j, r in zip(jobs, res) if r[0] == "err"]
     if errs: raise Inconclusive(f"executor failed on {len(errs)} runs, e.g.\n{errs[0][0]}\n{errs[0][1][:1500]}")
     results = [r[1] for r in res]
     paths = sum(r["paths"] for r in results)
     ctx.log(f"{len(acc)} grammars, {len(jobs)} (grammar,start) runs through Vm::parse/state(), inputs 0..{N}: {paths} paths, {time.time()-t0:.1f}s")
     reqs = []; idx = []
-    for ji, ((gi, st), r) in enumerate(zip(jobs, results)):
+    for ji, ((gi, st, det), r) in enumerate(zip(jobs, results)):
         ghex = acc[gi][0].encode().hex()
         for wi, row in enumerate(r["rows"]):
             if row.get("inp") is None or row["vm"]["res"] in ("NONTERM",): continue
-            reqs.append(f"0 0 {row['inp']} {st} {ghex}"); idx.append((ji, wi))
+            reqs.append(f"{det} 0 {row['inp']} {st} {ghex}"); idx.append((ji, wi))
     reps = c01.native_vm(reqs)
     enc = []; events = []; validated = 0; failing = 0
     for (ji, wi), rep, req in zip(idx, reps, reqs):
-        gi, st = jobs[ji]; row = results[ji]["rows"][wi]; vm = row["vm"]
+        gi, st, det = jobs[ji]; row = results[ji]["rows"][wi]; vm = row["vm"]
         nat = c01.parse_vm_reply(rep)
         if vm["res"] == "ERR" and "P" in vm:
             pred = f"P[{','.join(vm['P'])}]N[{','.join(vm['N'])}]"
@@ -91,22 +94,22 @@ def run(ctx):
         if row["ref"]["res"] != "ERR": probs.append("reference accepts although the VM fails (C01)") if False else None
         if probs:
             g = acc[gi][0]
-            what = f"grammar:\n{g}\nstart {st}, input {row['inp']}: error at {vm['at']} P{vm['P']} N{vm['N']}: " + "; ".join(p for p in probs if p)
+            what = f"grammar:\n{g}\nstart {st}, input {row['inp']}{' (error detail on)' if det else ''}: error at {vm['at']} P{vm['P']} N{vm['N']}: " + "; ".join(p for p in probs if p)
             if len(ctx.violations) < 10:
                 pth = save_replay(ctx, f"report-{abs(hash(req)) % 10**8}.json", {"req": req, "grammar": g, "start": st, "input": row["inp"], "rlog": row.get("rlog"), "what": what})
                 ctx.violations.append((what, pth, req))
-    for (gi, st), r in zip(jobs, results):
+    for (gi, st, det), r in zip(jobs, results):
         for row in r["rows"]:
             if row.get("event"): events.append(f"{acc[gi][0]!r} start {st}: {row['event']}")
     ctx.log(f"native validation: {validated} paths agree ({failing} failing parses judged), {len(enc)} encoder mismatches, {len(events)} events")
     fns = sorted(set(f for r in results for f in r["fns"]))
     samples = []
-    for (gi, st), r in list(zip(jobs, results))[::max(1, len(jobs) // 6)][:6]:
+    for (gi, st, det), r in list(zip(jobs, results))[::max(1, len(jobs) // 6)][:6]:
         fr = [w for w in r["rows"] if w.get("vm", {}).get("res") == "ERR"]
         if fr: samples.append({"grammar": acc[gi][0][:200], "start": st, "input_hex": fr[-1]["inp"], "report": fr[-1]["vm"]})
     cov = {"states": paths, "transitions": failing, "traces_validated_against_impl": validated, "samples": samples or [{"note": "no failing parse sampled"}], "exhaustive": False,
            "programs": len(acc), "functions_encoded": fns,
-           "bounds": f"{len(acc)} grammars (derive/tests/reporting.pest with its nine start rules + seeded family, seed {ctx.seed}) x every valid UTF-8 input of 0..{N} bytes (symbolic)",
+           "bounds": f"{len(acc)} grammars (derive/tests/reporting.pest with its nine start rules + seeded family, seed {ctx.seed}) x every valid UTF-8 input of 0..{N} bytes (symbolic); reporting.pest and the reporting shapes also with pest::set_error_detail(true)",
            "queries_discharged": sum(r["queries"] for r in results), "solver_time_s": round(sum(r["solver_s"] for r in results), 2), "encoder_mismatches": len(enc), "events": events[:10],
            "explanation": "states = explored paths; transitions = failing parses whose report was judged against the reference attempt log"}
     write_evidence(ctx, "model_checking", cov,
